@@ -231,14 +231,35 @@ func vfC19(c *hx.Ctx) {
 				defer p.mu.Unlock()
 				return p.server
 			}
+			// the end WITH FEC sends out-of-band messages to the end without: nobody can have registered a handler there, the
+			// messages go nowhere, and the streams (and the process) are not disturbed
+			toPlain := func(i int) {
+				var s *UDPSession
+				if side == "client-without-fec" {
+					p.mu.Lock()
+					s = p.server
+					p.mu.Unlock()
+				} else {
+					s = p.client
+				}
+				if s != nil {
+					if err := s.SendOOB(vfPayload(8, 40+i, i)); err != nil {
+						p.bad("C19:sendoob-refused", "SendOOB of %d bytes on the session with FEC failed: %v", 40+i, err)
+					}
+				}
+			}
 			probe(plain(), "before-traffic")
+			toPlain(0)
 			var wg vrt.WaitGroup
 			wg.Add(1)
 			vrt.Go("traffic", func() { defer wg.Done(); p.traffic() })
 			vrt.Sleep(12 * time.Millisecond)
 			probe(plain(), "after-receiving-fec-packets")
+			toPlain(1)
 			wg.Wait()
 			probe(plain(), "after-traffic")
+			toPlain(2)
+			vrt.Sleep(20 * time.Millisecond)
 			if !p.failed() {
 				p.drainBacklog()
 			}
